@@ -17,4 +17,4 @@ for P in "$@"; do
   done
 done
 wait
-for P in "$@"; do for K in a b c; do echo "${P}_$K: $(tail -1 /tmp/confirm_n_${P}_$K.out 2>/dev/null)"; done; done
+for P in "$@"; do for K in a b c; do echo "${P}_$K: $(tail -1 /tmp/confirm_n_${P}_$K.out 2>/dev/null | cut -c1-230)"; done; done
